@@ -198,7 +198,11 @@ pub fn parse_choice(
         // Non-gather line at or shallower than our indent:
         // - If we haven't absorbed a same-level gather yet, this is a sibling — stop.
         // - If we have absorbed a gather, it's the post-gather continuation — include it.
-        if gather_level == 0 && body_line.indent <= choice_indent && !absorbed_gather {
+        if gather_level == 0
+            && body_line.indent <= choice_indent
+            && !absorbed_gather
+            && !line_is_choice_content(body_trimmed)
+        {
             break;
         }
 
@@ -248,6 +252,17 @@ pub fn parse_choice(
         body_divert_is_inline: choice_text.inline_target.is_some()
             || !choice_text.inline_body_nodes.is_empty(),
     })]))
+}
+
+/// A line of text, logic or a divert is the content of the choice above it however
+/// it is indented (Ink gives indentation no meaning: only the next choice, gather or
+/// knot ends a choice). What ends it here as well is the end of the block the choice
+/// is in (`}`), and a declaration, which belongs to the whole story.
+fn line_is_choice_content(trimmed: &str) -> bool {
+    !(trimmed.starts_with('}')
+        || ["VAR ", "CONST ", "LIST ", "EXTERNAL ", "INCLUDE "]
+            .iter()
+            .any(|keyword| trimmed.starts_with(keyword)))
 }
 
 fn choice_marker_nesting_level(trimmed_start: &str) -> Option<usize> {
